@@ -35,7 +35,7 @@ def split(q):
 # --------------------------------------------------------------------------
 # Tree (in-scope maps, from bindgen.xml_tree) -> DTree with a random layout
 # --------------------------------------------------------------------------
-def layout(rng, tree, hoist=True, extras=True):
+def layout(rng, tree, hoist=True, extras=True, allow_default=False):
     """An equivalent document with a different placement of declarations: every prefix
     of the original in-scope maps keeps its binding at every element (QName-valued
     content stays valid); declarations are repeated, hoisted to the parent, and
@@ -64,8 +64,10 @@ def layout(rng, tree, hoist=True, extras=True):
         for p, u in need.items():
             if scope.get(p) != u and not (u == "" and p is None and not scope.get(None)):
                 decls.append([p, u])
-        if scope.get(None) and None not in need:
+        if scope.get(None) and None not in need and not allow_default:
             decls.append([None, ""])
+        if allow_default and not scope.get(None) and None not in need and split(n["q"])[0] and rng.random() < 0.3:
+            decls.append([None, rng.choice([split(n["q"])[0], split(n["q"])[0], uris[0]])])
         if hoist and rng.random() < 0.35:
             for c in n["c"]:
                 for p, u in c["ns"]:
@@ -173,7 +175,7 @@ def fancy_text(rng, s, noise):
         else:
             out.append(esc_text(chunk))
         if noise and j < len(s) and rng.random() < 0.3:
-            out.append(rng.choice(["<!--c-->", "<?pi data?>", "<!-- <x/> -->"]))
+            out.append(rng.choice(["<!--c-->", "<!-- <x/> -->"] if noise == "c" else ["<?pi data?>", "<?pi?>"]))
         i = j
     return "".join(out)
 
@@ -214,7 +216,7 @@ def print_dtree(d, rng=None, noise=None, decl=False):
         else:
             parts.append(s + ">")
             if text:
-                parts.append(fancy_text(rng, text, "text" in noise) if rng else esc_text(text))
+                parts.append(fancy_text(rng, text, "c" if "text_c" in noise else "pi" if "text_pi" in noise else None) if rng else esc_text(text))
             elif rng and "between" in noise and n["c"] and rng.random() < 0.3:
                 parts.append(rng.choice(["<!--c-->", "<?pi?>"]))
             for c in n["c"]:
@@ -222,7 +224,7 @@ def print_dtree(d, rng=None, noise=None, decl=False):
             parts.append("</" + tag + (" " if rng and rng.random() < 0.1 else "") + ">")
         tl = n["tl"]
         if tl:
-            parts.append(fancy_text(rng, tl, "tail" in noise) if rng else esc_text(tl))
+            parts.append(fancy_text(rng, tl, "c" if "tail_c" in noise else "pi" if "tail_pi" in noise else None) if rng else esc_text(tl))
         elif rng and "between" in noise and rng.random() < 0.15:
             parts.append(rng.choice(["<!--c-->", "<?pi?>"]))
 
